@@ -180,18 +180,31 @@ def _alarm_handler(signum, frame):
     raise HangDetected()
 
 
+def _arm(timeout):
+    """Watchdog: `timeout` seconds of CPU time of this process (so a loaded machine does not turn a
+    slow path into a hang), with a wall-clock backstop for a path that blocks without using the CPU."""
+    signal.signal(signal.SIGPROF, _alarm_handler)
+    signal.signal(signal.SIGALRM, _alarm_handler)
+    signal.setitimer(signal.ITIMER_PROF, timeout)
+    signal.setitimer(signal.ITIMER_REAL, max(60.0, timeout * 20))
+
+
+def _disarm():
+    signal.setitimer(signal.ITIMER_PROF, 0)
+    signal.setitimer(signal.ITIMER_REAL, 0)
+
+
 def run_concrete(fn, kwargs, timeout):
     """Run the harness on plain values.  Returns (verdict, where, detail).
 
     verdict: True | failure-label | 'ignored' | 'hang'
     """
-    signal.signal(signal.SIGALRM, _alarm_handler)
-    signal.setitimer(signal.ITIMER_REAL, timeout)
+    _arm(timeout)
     try:
         try:
             r = fn.__wrapped_harness__(ConcreteArgs(spec_types(fn), kwargs))
         finally:
-            signal.setitimer(signal.ITIMER_REAL, 0)
+            _disarm()
     except HangDetected:
         return "hang", None, "no termination within %.1fs concretely" % timeout
     except Fail as e:
@@ -237,7 +250,7 @@ def _explore_shard(h, shard, budget_s, path_timeout, max_fail_keep=40, max_sampl
     from crosshair.statespace import (CallAnalysis, RootNode, StateSpace, StateSpaceContext,
                                       VerificationStatus)
     from crosshair.tracers import COMPOSITE_TRACER, NoTracing, ResumedTracing
-    from crosshair.util import IgnoreAttempt, NotDeterministic, UnexploredPath
+    from crosshair.util import CrossHairInternal, IgnoreAttempt, NotDeterministic, UnexploredPath
 
     # Floats are modelled as reals in every claim (DESIGN 2.5).  CrossHair would otherwise also
     # fork into an IEEE-754 (z3 FP theory) representation whose int->fp conversions take
@@ -270,7 +283,6 @@ def _explore_shard(h, shard, budget_s, path_timeout, max_fail_keep=40, max_sampl
     res = dict(harness=h.id, shard=shard, paths=0, ok=0, fail=0, ignored=0, unknown=0,
                hang_candidates=0, fails=[], samples=[], passing=[], exhausted=False,
                nondeterministic=0, error=None)
-    signal.signal(signal.SIGALRM, _alarm_handler)
     t_start = time.time()
     seen_fail_keys = {}
     while True:
@@ -291,12 +303,12 @@ def _explore_shard(h, shard, budget_s, path_timeout, max_fail_keep=40, max_sampl
                 hang = False
                 try:
                     with ExceptionFilter() as efilter:
-                        signal.setitimer(signal.ITIMER_REAL, path_timeout)
+                        _arm(path_timeout)
                         try:
                             with ResumedTracing():
                                 ret = fn.__wrapped_harness__(lazy)
                         finally:
-                            signal.setitimer(signal.ITIMER_REAL, 0)
+                            _disarm()
                 except HangDetected:
                     hang = True
                 if hang:
@@ -323,11 +335,26 @@ def _explore_shard(h, shard, budget_s, path_timeout, max_fail_keep=40, max_sampl
                 # Detach before realizing: realization of a symbolic value is itself a decision
                 # (value == v / value != v); on a detached path it no longer grows the search
                 # tree, so one program path is one leaf.
-                with ResumedTracing():
-                    space.detach_path()
-                inputs = _plain(deep_realize(dict((k, lazy._vals[k]) for k in lazy.created)))
-                inputs.update(shard)
-                status = VerificationStatus.CONFIRMED
+                if hang:
+                    # the watchdog may have interrupted CrossHair itself: realise defensively, and
+                    # never let a cut path count as an explored leaf of the search tree
+                    try:
+                        with ResumedTracing():
+                            space.detach_path()
+                        inputs = _plain(deep_realize(dict((k, lazy._vals[k]) for k in lazy.created)))
+                        inputs.update(shard)
+                    except BaseException:  # noqa
+                        inputs = None
+                    if inputs is None:
+                        verdict = None
+                        res["unknown"] += 1
+                    status = VerificationStatus.UNKNOWN
+                else:
+                    with ResumedTracing():
+                        space.detach_path()
+                    inputs = _plain(deep_realize(dict((k, lazy._vals[k]) for k in lazy.created)))
+                    inputs.update(shard)
+                    status = VerificationStatus.CONFIRMED
             except IgnoreAttempt:
                 status = None
                 res["ignored"] += 1
@@ -337,17 +364,19 @@ def _explore_shard(h, shard, budget_s, path_timeout, max_fail_keep=40, max_sampl
                 res.setdefault("unknown_kinds", {})
                 k = type(e).__name__
                 res["unknown_kinds"][k] = res["unknown_kinds"].get(k, 0) + 1
-            except NotDeterministic:
+            except (NotDeterministic, CrossHairInternal) as e:
                 res["nondeterministic"] += 1
                 res["error"] = "NotDeterministic"
+                res["error_detail"] = repr(e)[:300]
                 break
             finally:
-                signal.setitimer(signal.ITIMER_REAL, 0)
+                _disarm()
             try:
                 _a, exhausted = space.bubble_status(CallAnalysis(status))
-            except NotDeterministic:
+            except (NotDeterministic, CrossHairInternal) as e:
                 res["nondeterministic"] += 1
                 res["error"] = "NotDeterministic"
+                res["error_detail"] = repr(e)[:300]
                 break
         res["paths"] += 1
         if verdict is True:
@@ -386,7 +415,22 @@ def _shard_task(arg):
                         unsat=0, solver_s=0.0, validated=0, validated_bad=[],
                         functions_entered=[], hang_candidates=0, wall_s=0.0)
         path_timeout = h.path_timeout or (2.0 if tier == "quick" else 6.0)
-        res = _explore_shard(h, shard, budget_s, path_timeout)
+        # A search tree that stops matching the execution (CrossHair: NotDeterministic) has so far
+        # only been seen when the machine is overloaded (a solver query or the watchdog timing out on
+        # one visit of a prefix and not on the next).  The shard is explored again from an empty
+        # tree; if that keeps happening the shard is reported as not exhausted (flaky), never as held.
+        attempts = 0
+        while True:
+            attempts += 1
+            res = _explore_shard(h, shard, max(1.0, budget_s - (time.time() - t0)), path_timeout)
+            if res.get("error") != "NotDeterministic":
+                break
+            if attempts >= 3 or time.time() - t0 > budget_s * 0.8:
+                res["flaky"] = res.get("error_detail") or "NotDeterministic"
+                res["error"] = None
+                res["exhausted"] = False
+                break
+        res["attempts"] = attempts
         # ---- concrete replay of failures (outside CrossHair) and validation of passing paths
         replay_timeout = max(10.0, path_timeout * 5)
         nhang = 0
@@ -481,8 +525,11 @@ def run_harnesses(modname, tier, only=None, total_budget_s=None, procs=None, see
         remaining_cost -= h.cost
         deadline = now + slice_s
         args = []
+        # with more shards than workers every shard gets an equal share of the slice, so that each one is started
+        # (a shard that does not finish inside its share is reported as not exhausted)
+        fair = slice_s if len(h.shards) <= procs else max(3.0, slice_s * procs / len(h.shards))
         for i in range(len(h.shards)):
-            cap = h.shard_budget or slice_s
+            cap = min(h.shard_budget or slice_s, fair)
             args.append((modname, tier, h.id, i, cap, deadline))
         with ctx.Pool(processes=min(procs, max(1, len(args))), maxtasksperchild=1) as pool:
             for r in pool.imap_unordered(_shard_task, args, chunksize=1):
